@@ -317,15 +317,8 @@ Definition autoinc_honoured (i:c13_in) : bool :=
   | Some b => is_mysql (i_d i) || opt_eqb Bool.eqb (e_autoinc (i_ex i)) (Some b)
   end.
 
-(* second excluded class (see C13_check_after_rename_refuted): toimpl.alter_column adds the type-bound CHECK
-   of the new type AFTER the impl-level call has renamed the column, and the CHECK text still names the
-   old column *)
-Definition check_after_rename (i:c13_in) : bool :=
-  match r_name (i_req i), ck_of (r_type (i_req i)) with
-  | Some n, Some _ => negb (N.eqb n (e_name (i_ex i))) && match i_d i with Dsqlite => false | _ => true end
-  | _, _ => false
-  end.
-Definition inclass_C13 (i:c13_in) : bool := autoinc_honoured i && negb (check_after_rename i).
+(* the class on which the model satisfies the property at full strength *)
+Definition inclass_C13 (i:c13_in) : bool := autoinc_honoured i.
 
 (* ------------------------------------------------------------------ the existing_* values each dialect needs
    (C13_stated_enough_exact proves that, for the statements the model emits, [stated_enough] is exactly this) *)
